@@ -89,6 +89,87 @@ def elem_facts(v):
     return f
 
 
+NP_RELS = None
+
+
+def np_rels():
+    """the inference relations the numpy back end registers (source, target), in table order"""
+    global NP_RELS
+    if NP_RELS is None:
+        NP_RELS = []
+        for t in ALL:
+            for r in t.relations:
+                if r.inferential and any(k[0] is np.ndarray for k in r.relationship.keys()):
+                    NP_RELS.append((r.related_type, t))
+    return NP_RELS
+
+
+def np_view(x, v, order):
+    import alpha_np as A
+    arr = A.array(x)
+    if arr is None:
+        return None
+    dtm, dtw = A.dt_oracles(x, arr)
+    rels = []
+    for src, dst in np_rels():
+        if v["mem"].get(str(src)) != ["ok", True]:
+            continue
+        rel = dst.relations[src]
+        gv = outcome(lambda: bool(rel.is_relation(x, {})))
+        ent = {"src": str(src), "dst": str(dst), "guard": gv, "xform": None}
+        if gv == ["ok", True]:
+            o = outcome(lambda: rel.transform(x, {}))
+            ent["xform"] = ["ok", A.observable(A.array(o[1]))] if o[0] == "ok" else o
+        rels.append(ent)
+    trav = []
+    for od in (order, list(reversed(order))):
+        ts2 = typeset_for(od)
+        ent = {}
+        for mode in ("infer", "detect"):
+            o = outcome(lambda: (ts2.infer(x) if mode == "infer" else ts2.detect(x))[:2])
+            if o[0] == "ok":
+                ent[mode] = {"path": [str(t) for t in o[1][1]], "arr": A.observable(A.array(o[1][0]))}
+            else:
+                ent[mode] = {"raises": o[1]}
+        trav.append(ent)
+    return {"arr": arr, "dtMasked": dtm, "dtWhole": dtw, "rels": rels, "trav": trav, "orders": [order, list(reversed(order))]}
+
+
+def np_compare(o, resp):
+    """differences between the real numpy back end and the Lean model on one array"""
+    diffs = []
+    for t, m in o["mem"].items():
+        if m[0] == "ok" and resp["contains"].get(t) != m[1]:
+            diffs.append({"what": "contains", "type": t, "real": m[1], "model": resp["contains"].get(t)})
+    mrel = {(r["src"], r["dst"]): r for r in resp["rels"]}
+    for r in o["np"]["rels"]:
+        m = mrel.get((r["src"], r["dst"]))
+        if m is None:
+            diffs.append({"what": "relation-missing", "rel": "%s->%s" % (r["src"], r["dst"])})
+            continue
+        if m["guard"] != r["guard"]:
+            diffs.append({"what": "guard", "rel": "%s->%s" % (r["src"], r["dst"]), "real": r["guard"], "model": m["guard"]})
+        elif r["guard"] == ["ok", True]:
+            mx, rx = m["xform"], r["xform"]
+            if (mx or [None])[0] != (rx or [None])[0]:
+                diffs.append({"what": "xform-outcome", "rel": "%s->%s" % (r["src"], r["dst"]), "real": rx and rx[:2], "model": mx and mx[:2]})
+            elif rx[0] == "ok" and mx[1] != rx[1]:
+                diffs.append({"what": "xform", "rel": "%s->%s" % (r["src"], r["dst"]), "real": rx[1], "model": mx[1]})
+            elif rx[0] == "raises" and mx[1] != rx[1]:
+                diffs.append({"what": "xform-outcome", "rel": "%s->%s" % (r["src"], r["dst"]), "real": rx, "model": mx})
+    for real, model in zip(o["np"]["trav"], resp["trav"]):
+        for mode in ("infer", "detect"):
+            a, b = real[mode], model.get(mode, {})
+            if "raises" in a or "raises" in b:
+                if a.get("raises") != b.get("raises"):
+                    diffs.append({"what": mode + "-outcome", "real": a.get("raises", "ok"), "model": b.get("raises", "ok")})
+            elif a["path"] != b["path"]:
+                diffs.append({"what": mode + "-path", "real": a["path"], "model": b["path"]})
+            elif a["arr"] != b["arr"]:
+                diffs.append({"what": mode + "-data", "real": a["arr"], "model": b["arr"]})
+    return diffs
+
+
 def view(x, ts, types):
     mem = {str(t): outcome(lambda: bool(x in t)) for t in types}
     return {"mem": mem, "detect": outcome(lambda: str(ts.detect_type(x))), "infer": outcome(lambda: str(ts.infer_type(x)))}
@@ -159,7 +240,7 @@ def observe(recipe, backend):
             pa = PARENT.get(str(t))
             if pa is not None and v["mem"].get(str(t)) == ["ok", True]:
                 accepted.setdefault(pa, []).append(str(t))
-            for r in t.get_relations():
+            for r in t.relations:
                 if r.inferential and str(r.related_type) in v["mem"] and v["mem"].get(str(r.related_type)) == ["ok", True]:
                     if outcome(lambda: bool(r.is_relation(x, {}))) == ["ok", True]:
                         accepted.setdefault(str(r.related_type), []).append(str(t))
@@ -170,7 +251,11 @@ def observe(recipe, backend):
     # ... and the answer does not depend on the order in which the types are supplied (C02; for lists, which C02
     # excludes, an order-dependent answer is checked against C15's statement directly: the answer of the parent-closed
     # sub-typeset spanned by one answer must lie on the other order's path / be a source of its inferred type)
+    # (an order-dependent answer that is the CONSEQUENCE of an overlap reported above is not reported separately)
+    has_overlap = any(f["signature"].startswith(pre + "overlap:") for f in fails)
     for alt_order in (list(reversed(order)), order[1::2] + order[0::2]):
+        if has_overlap:
+            break
         ts2 = typeset_for(alt_order)
         for k, fn in (("detect", lambda: str(ts2.detect_type(x))), ("infer", lambda: str(ts2.infer_type(x)))):
             w = outcome(fn)
@@ -211,7 +296,9 @@ def observe(recipe, backend):
     if snap(x) != s0:
         add("C05", "mutated:infer", "input modified by infer")
     if inf[0] == "raises":
-        add("C09", "infer:%s" % inf[1], "infer raised %s" % inf[1])
+        from run_pandas import locate_raise
+        site = locate_raise(ts, x, True)
+        add("C09", "infer:%s" % site, "infer raised %s (%s)" % (inf[1], site))
     else:
         data, path, _ = inf[1]
         p = [str(t) for t in path]
@@ -259,8 +346,9 @@ def observe(recipe, backend):
                     pass
             try:
                 n_in, n_out = len(x), len(data)
-                if n_in != n_out and not (backend == "numpy" and "Integer" in p and "Float" in p):
-                    add("C06", "length:%s" % key, "cast changed the length %d -> %d" % (n_in, n_out))
+                if n_in != n_out:
+                    hop = "Float->Integer" if (backend == "numpy" and "Integer" in p and "Float" in p) else key
+                    add("C06", "length:%s" % hop, "cast changed the length %d -> %d (path %s)" % (n_in, n_out, key))
             except Exception:
                 pass
     # C11: permutations / repetition
@@ -327,6 +415,15 @@ def observe(recipe, backend):
                     if back[0] == "ok" and back[1] is not x1:
                         add("C05", "stale-after-edit", "no coercion applies after the in-place edit but cast_to_inferred returned another object")
     out = {"fails": fails, "infer": inf[1][1] and [str(t) for t in inf[1][1]] if inf[0] == "ok" else inf[1]}
+    if backend == "numpy":
+        out["mem"] = v["mem"]
+        # what the Lean model of the numpy back end is compared with: membership, every registered relation whose
+        # source contains the array (test outcome, and the abstracted cast where it accepts), detect / infer walks
+        try:
+            out["np"] = np_view(x, v, order)
+        except Exception:  # noqa
+            import traceback
+            out["np_crash"] = traceback.format_exc()[-600:]
     if backend == "list":
         # what the Lean model of the list back end is compared with (membership of the 22 types, detection path)
         try:
@@ -340,15 +437,22 @@ def observe(recipe, backend):
 
 NP_POOLS = {
     "int": [["int", 1], ["int", 2], ["int", -3], ["int", 0]],
-    "float": [["float", 1.0], ["float", 2.0], ["float", 1.5], ["nan"], ["float", 0.0], ["float", "inf"]],
-    "complex": [["complex", 1, 0], ["complex", 2, 0], ["complex", 1, 2], ["complex", "nan", 0]],
+    "float": [["float", 1.0], ["float", 2.0], ["float", 1.5], ["nan"], ["float", 0.0], ["float", "inf"], ["float", 1e300],
+              ["float", 9223372036854775808.0], ["float", -9223372036854775808.0], ["float", 4611686018427387904.0], ["float", -3.0]],
+    "complex": [["complex", 1, 0], ["complex", 2, 0], ["complex", 1, 2], ["complex", "nan", 0], ["complex", 1, "nan"], ["complex", 3, 1e-12],
+                ["complex", 1e300, 0]],
     "bool": [["bool", True], ["bool", False]],
     "str": [["str", "1"], ["str", "2.5"], ["str", "a"], ["str", "True"], ["str", "no"], ["str", "yes"], ["str", "2020-01-01"],
-            ["str", "1+2j"], ["str", "05"], ["str", "false"], ["str", "nan"], ["str", "true"], ["str", "3j"]],
+            ["str", "1+2j"], ["str", "05"], ["str", "false"], ["str", "nan"], ["str", "true"], ["str", "3j"],
+            ["str", "2020"], ["str", "20200101"], ["str", "2020-01-01 10:00+01:00"], ["str", "2020-06-01 12:00+02:00"], ["str", "1e5"],
+            ["str", "inf"], ["str", "1_0"], ["str", "TRUE"], ["str", "Y"], ["str", "n"], ["str", "0.5"], ["str", "007"], ["str", "1."],
+            ["str", " 1 "], ["str", ""], ["str", "1e999"], ["str", "j"], ["str", "nan+1j"], ["str", "2021-13-45"], ["str", "10:30"]],
+    # strings of one family throughout (so that the relations out of String accept), optionally with a missing value
+    "strfam": [],
     "dt": [["npdt", "2020-01-01"], ["npdt", "2020-01-02T10:00"], ["npdt", "NaT"]],
     "td": [["nptd", 1], ["nptd", 5]],
     "obj": [["str", "a"], ["int", 1], ["bool", True], ["float", 1.5], ["none"], ["nan"], ["dt", "2020-01-01T00:00:00"],
-            ["complex", 1, 0], ["list"], ["bytes", "ab"], ["str", "1"]],
+            ["complex", 1, 0], ["list"], ["bytes", "ab"], ["str", "1"], ["NA"], ["NaT"], ["str", "true"], ["str", "2.5"], ["int", 2 ** 70]],
     # numpy scalars and pandas timestamps inside object arrays
     "objnp": [["npint", 1, "int64"], ["npint", 3, "int32"], ["npint", 2, "uint8"], ["int", 1], ["none"], ["npfloat", 1.5], ["npfloat", 2.0],
               ["npbool", True], ["bool", False], ["npstr", "a"], ["str", "b"], ["pyts", "2020-01-01"], ["dt", "2020-01-01T00:00:00"],
@@ -416,7 +520,24 @@ def gen(rng, backend):
     n = rng.choice([0, 1, 1, 2, 3, 4, 6])
     if backend == "numpy":
         k = rng.choice(list(NP_POOLS))
+        if k == "strfam":
+            fam = rng.choice([["1", "2.5", "1e5", "007", "0.5", "inf", "nan", "-3"], ["true", "false", "TRUE", "False"], ["y", "n", "Y", "N"],
+                              ["yes", "no", "YES"], ["1+2j", "3j", "2", "nan+1j", "1e3+0j"], ["2020-01-01", "2021-05-06 10:00", "1999-12-31T23:59:59"],
+                              ["2020", "1999", "20200101"], ["2020-01-01 10:00+01:00", "2020-06-01 12:00+01:00"], ["a", "b", ""]])
+            vals = [["str", rng.choice(fam)] for _ in range(max(n, 1))]
+            r = {"values": vals, "stream": "numpy:strfam"}
+            if rng.random() < 0.5:
+                vals.insert(rng.randint(0, len(vals)), rng.choice([["none"], ["nan"], ["NA"], ["NaT"]]))
+                r["npdtype"] = "object"
+            elif rng.random() < 0.3:
+                r["npdtype"] = "object"
+            return r
         vals = [rng.choice(NP_POOLS[k]) for _ in range(n)]
+        if k in ("float", "complex", "int") and rng.random() < 0.4:
+            dt = rng.choice({"float": ["float32", "float16", "longdouble"], "complex": ["complex64", "clongdouble"],
+                             "int": ["int8", "uint16", "uint64", "int32"]}[k])
+            if not (k == "int" and dt.startswith("u") and any(v[1] < 0 for v in vals)):
+                return {"values": vals, "stream": "numpy:" + k + ":" + dt, "npdtype": dt}
         if k == "obj" and rng.random() < 0.5:
             base = rng.choice(NP_POOLS["obj"])
             vals = [base if rng.random() < 0.8 else rng.choice(NP_POOLS["obj"]) for _ in range(n)]
@@ -471,6 +592,8 @@ FAMILY_SEQ = {
              ("url strings", [["str", "http://a.b/c"], ["str", "https://x.y/z"]], "URL"), ("path strings", [["str", "/home/u/f.txt"], ["str", "/a"]], "Path"),
              ("ip strings", [["str", "127.0.0.1"], ["str", "::1"]], "IPAddress"), ("email strings", [["str", "test@example.com"]], "EmailAddress"),
              ("geometry strings", [["str", "POINT (1 2)"]], "Geometry"),
+             ("uuid strings", [["str", "0b8a22ca-80ad-4df5-85ac-fa49c44b7ede"]], "UUID"),
+             ("midnight datetimes", [["dt", "2020-01-01T00:00:00"], ["dt", "2021-05-06T00:00:00"]], "Date"),
              # values that are all falsy are values all the same
              ("zeros", [["int", 0], ["int", 0]], "Integer"), ("zero floats", [["float", 0.0], ["float", 0.0]], "Integer"),
              ("all False", [["bool", False], ["bool", False]], "Boolean"), ("empty strings", [["str", ""], ["str", ""]], "String"),
@@ -481,6 +604,13 @@ FAMILY_SEQ = {
               ("float strings", [["str", "1.5"], ["str", "2.25"]], "Float"), ("bool strings", [["str", "true"], ["str", "false"]], "Boolean"),
               ("complex", [["complex", 1, 2], ["complex", 0, 3]], "Complex"), ("zero-imaginary complex", [["complex", 1, 0], ["complex", 2, 0]], "Float"),
               ("complex strings", [["str", "1+2j"], ["str", "3j"]], "Complex"),
+              ("complex64", [["complex", 1, 2], ["complex", 0, 3]], "Complex", "complex64"), ("float32", [["float", 1.5], ["float", 2.5]], "Float", "float32"),
+              ("float16 integral", [["float", 1.0], ["float", 2.0]], "Integer", "float16"), ("int8", [["int", -1], ["int", 2]], "Integer", "int8"),
+              ("uint64", [["int", 1], ["int", 2]], "Integer", "uint64"), ("zero-imaginary complex64", [["complex", 1, 0]], "Float", "complex64"),
+              ("tz datetime strings", [["str", "2020-01-01 10:00+01:00"], ["str", "2020-06-01 12:00+01:00"]], "DateTime"),
+              ("float strings + NA", [["str", "1.5"], ["NA"], ["str", "2.25"]], "Float", "object"),
+              ("complex strings + None", [["str", "1+2j"], ["none"]], "Complex", "object"),
+              ("bool strings + nan", [["str", "true"], ["nan"], ["str", "false"]], "Boolean", "object"),
               ("datetimes", [["npdt", "2020-01-01T10:00"], ["npdt", "2021-05-06T01:02:03"]], "DateTime"),
               ("timedeltas", [["nptd", 1], ["nptd", 5]], "TimeDelta"),
               ("datetime strings", [["str", "2020-01-01 10:30:00"], ["str", "2021-05-06 01:02:03"]], "DateTime"),
@@ -494,10 +624,13 @@ def family_seq(backend):
     order = STD if backend == "numpy" else COMPLETE
     ts = typeset_for(order)
     n = 0
-    for fam, vals, want in FAMILY_SEQ[backend]:
+    for ent in FAMILY_SEQ[backend]:
+        fam, vals, want = ent[:3]
         for container in (("list", "tuple") if backend == "list" else ("numpy",)):
             for k in (1, 3):
                 rec = {"values": vals * k, "stream": "family:" + fam}
+                if len(ent) > 3:
+                    rec["npdtype"] = ent[3]
                 x = build(rec, container)
                 r = outcome(lambda: [str(t) for t in ts.infer(x)[1]])
                 n += 1
@@ -584,6 +717,26 @@ def run_backend(tier, seed, backend, n=None, nproc=16):
                 diffs.append({"what": "detect-path", "real": o["detect_path"], "model": tr["detect"]})
             if diffs:
                 model_dis.append({"kind": "pylist", "recipe": o["recipe"], "diffs": diffs[:4]})
+    n_good = 0
+    if backend == "numpy":
+        from common import Driver
+        idx = [i for i, o in enumerate(obs) if o.get("np")]
+        resps = Driver().batch([{"op": "numpy", "arr": obs[i]["np"]["arr"], "dtMasked": obs[i]["np"]["dtMasked"],
+                                 "dtWhole": obs[i]["np"]["dtWhole"], "typesets": obs[i]["np"]["orders"]} for i in idx])
+        for i, resp in zip(idx, resps):
+            o = obs[i]
+            diffs = np_compare(o, resp)
+            o["np_good"] = bool(resp.get("good"))
+            n_good += 1 if o["np_good"] else 0
+            if diffs:
+                model_dis.append({"kind": "numpy", "recipe": o["recipe"], "diffs": diffs[:4]})
+                # a failure can only be a KNOWN finding where the model (which mirrors the listed defects) agrees with
+                # the code on that very input
+                for f in o["fails"]:
+                    f["known_eligible"] = False
+        for o in obs:
+            if "np_crash" in o:
+                model_dis.append({"kind": "harness-crash", "recipe": o["recipe"], "trace": o["np_crash"]})
     crashes = [o for o in obs if "crash" in o]
     nontriv = set(canon(o["recipe"]["values"]) for o in obs if isinstance(o.get("infer"), list) and len(o["infer"]) >= 2)
     dist = {}
@@ -596,7 +749,8 @@ def run_backend(tier, seed, backend, n=None, nproc=16):
                     "whose inference path has >= 2 types" % backend,
             "samples": [o["recipe"] for o in obs[:2]],
             "disagreements": [{"kind": "harness-crash", "recipe": c["recipe"], "trace": c["crash"]} for c in crashes] + model_dis,
-            "oracle_failures": fails, "distribution": {"paths": dist}}
+            "oracle_failures": fails, "distribution": {"paths": dist, "model_compared": sum(1 for o in obs if o.get("np") or "elems" in o),
+                                                       "theorem_hypothesis_holds": n_good}}
 
 
 def run_numpy(tier, seed):
@@ -614,8 +768,8 @@ if __name__ == "__main__":
     n = int(sys.argv[4]) if len(sys.argv) > 4 else None
     r = run_backend(tier, seed, backend, n)
     print(r["evaluations"], r["distinct_nontrivial"], len(r["oracle_failures"]), "crashes", len(r["disagreements"]))
-    for d in r["disagreements"][:2]:
-        print(d["trace"])
+    for d in r["disagreements"][:6]:
+        print(json.dumps(d, default=str)[:900])
     import collections
     c = collections.Counter((f["property"], f["signature"]) for f in r["oracle_failures"])
     ex = {}
